@@ -93,6 +93,19 @@ CLAIMS = {
        "Real runs of every sampler class (incl. resumed runs and Aspire.sample_posterior) are observed through instrumented user callables; the observed stream must be in the model's language and the model's counter must equal the reported one.",
   note=TB + "Which requests each sampler makes is observed, not derived: the theorem quantifies over all request lists, the harness checks that the observed stream is one. Kernel doubles call the target like the real kernels.",
   technique="Lean 4 proof (event-trace invariant) + instrumented callables on whole runs + counter correspondence"),
+ "C19": dict(
+  text="Theorems by structural induction over programs (any nesting depth of the two contexts, an exception at any position): after ANY program the instance's log_likelihood and log_prior are the objects they "
+       "were before; leaving auto_checkpoint restores the checkpoint defaults to exactly their value on entry (including absence and the saved_* flags of an enclosing context); a pool is closed/joined only by a context "
+       "with close_pool=True, and always then (also when the body raises). All programs to depth 2 (quick) / 3 (thorough) plus random ones to depth 4 are run on a real Aspire with a recording pool and on the model.",
+  note=TB + "CPython with/finally semantics are modelled (exec runs __exit__/finally on every path); callables are identity tokens; enable_pool(None) is outside the model.",
+  technique="Lean 4 proof (structural induction over context programs) + exhaustive small-depth differential correspondence + identity/value oracle"),
+ "C20": dict(
+  text="Decision logic stated outright: for every sampler wiring table that passes the decidable predicate WiringOK (equivalently: sample does not overwrite a constructor-supplied generator) the user's generator is the "
+       "source in use on every route on which the class accepts it (constructor, sample call, top-level sample_posterior); the pinned MiniPCNSMC table is proved to discard it on two routes (repaired by a fix: commit). "
+       "The tables are re-extracted from the current source on every run (inspect.signature + probe) and the predicate evaluated on them; paired runs with identical explicit sources and different ambient entropy must be bit-identical.",
+  note=TB + "The theorem is about argument routing; bit-reproducibility of the numerical libraries given the same seeds is established by the paired runs (exploration supporting the tie), not by proof. Ambient entropy is controlled by "
+       "patching argument-less default_rng, the ArrayRNG double and torch's global seed. Emcee/EmceeSMC accept no generator (numpy global state): outside the quantifier.",
+  technique="Lean 4 proof (decision table, regenerated from source) + paired-run non-interference check"),
 }
 NOT_YET = "check not built yet (work in progress; see DESIGN.md section 10)"
 
